@@ -30,7 +30,8 @@ def make_config(seed, tier):
     # history on top of it is seeded
     p, pr, ac, fe = GRID[seed % len(GRID)] if tier == "thorough" else r.choice(GRID)
     return {"seed": seed, "prefix": p, "principal": pr, "autocreate": ac, "frontend": fe, "strict": True, "listing": True,
-            "restarts": r.randint(0, 3), "entry": r.choice(["root", "root", "wk-caldav", "wk-carddav"]), "writes": r.randint(1, 4)}
+            "restarts": r.randint(0, 3), "entry": r.choice(["root", "root", "wk-caldav", "wk-carddav"]), "writes": r.randint(1, 4),
+            "recreate": r.random() < 0.35}
 
 
 class DiscoRun:
@@ -183,6 +184,10 @@ class DiscoRun:
                 return
             if not found["calendars"] or not found["addressbooks"]:
                 self.v("C18.created-collection-not-reachable", "%s: calendars=%s addressbooks=%s after MKCALENDAR/MKCOL under the home sets" % (self.layout(), found["calendars"], found["addressbooks"]), step="collection")
+        if c.get("recreate") and len(found["homes"]) >= 2:
+            found = self.recreate_as_other_type(found)
+            if found is None:
+                return
         if len(self.samples) < 1:
             self.samples.append({"layout": self.layout(), "entry": c["entry"], "restarts": c["restarts"], "reached": found})
         for i in range(c["restarts"] + 1):
@@ -201,6 +206,27 @@ class DiscoRun:
                     self.v("C18.collection-lost-after-restart", "%s: %s no longer reachable after restart %d" % (self.layout(), sorted(lost), i + 1), step="restart", which=key)
             self.verify_data("restart %d" % (i + 1))
             found = again
+
+    def recreate_as_other_type(self, found):
+        """A collection is created, listed, deleted and created again at the
+        same URL as the other type; discovery must report what exists now."""
+        w = self.world
+        cal_home, ab_home = found["homes"][0], found["homes"][1]
+        tgt = ab_home + "swap/"
+        r1 = w.req("MKCALENDAR", target=tgt)
+        self.discover("after creating swap/ as calendar")
+        r2 = w.req("DELETE", target=tgt)
+        r3 = w.req("MKCOL", target=tgt, headers=[("Content-Type", "text/xml")], body=dav.mkcol_body([dav.RT_COLLECTION, dav.RT_ADDRESSBOOK], []))
+        self.ops.append({"op": "recreate", "target": tgt, "status": [x.status if x else None for x in (r1, r2, r3)]})
+        again = self.discover("after re-creating swap/ as address book")
+        if again is None:
+            return None
+        if r3 is not None and r3.status == 201 and tgt not in again["addressbooks"]:
+            _, rs = self.propfind(tgt, [dav.P_RESOURCETYPE])
+            rt = [x.tag for x in rs[0].prop(dav.P_RESOURCETYPE)] if rs and rs[0].prop(dav.P_RESOURCETYPE) is not None else None
+            self.v("C18.recreated-collection-has-wrong-type", "%s: %s deleted as calendar and re-created as address book is listed with resourcetype %s" % (self.layout(), tgt, rt), step="collection", which="addressbooks")
+        self.count("recreate_steps")
+        return again
 
     def write_data(self, found, round_no):
         w = self.world
